@@ -6,7 +6,7 @@ sd=$(readlink -f "$1"); pid=$2; tier=${3:-quick}
 sh=/tmp/tryseed-$$
 rm -rf $sh; mkdir -p $sh/verif
 git clone -q /repo $sh/repo
-rsync -a --exclude .git --exclude 'build/run' --exclude 'build/cov' --exclude replay /verif/ $sh/verif/
+rsync -a --exclude .git --exclude 'build/target/debug/incremental' --exclude 'build/run' --exclude 'build/cov' --exclude replay /verif/ $sh/verif/
 SHADOW=$sh /verif/lib/shadow_seedtest.sh $sd/patch.diff $pid $tier > $sh/out.log 2>&1
 grep -E "^VIOLATION|^KNOWN-FINDING|failing input found|no longer checks|obligations discharged|seedtest|does not apply" $sh/out.log | cut -c1-700
 rm -rf $sh
